@@ -20,6 +20,10 @@ from pvc import src as S, kern as K, twin as T, ev as E, solve
 from pvc.val import *  # noqa
 from pvc import val as V
 
+# property-level native oracle used as the replay of refuted obligations that carry no model-specific replay
+FALLBACK_REPLAY = {"handler": "bounded", "input": {"what": "supplied_part", "fixed_on": ["j6", "fci"]},
+                   "expected": "pressure results exactly on the junctions an independent search reaches; supplied part = network without the rest"}
+
 PS = "pandapipes.pf.pipeflow_setup"
 RX = "pandapipes.pf.result_extraction"
 BR = "pandapipes.idx_branch"
@@ -465,3 +469,21 @@ def fixing_rows_ext_grid_c04(ctx):
 def fixing_rows_circ_pump_c04(ctx):
     from contracts.C03 import fixing_rows_circ_pump
     fixing_rows_circ_pump(ctx)
+
+
+
+@unit("C04", "bounded/supplied_part", functions=["pandapipes.pipeflow:pipeflow", "pandapipes.pf.pipeflow_setup:identify_active_nodes_branches"],
+      engine="bounded")
+def supplied_part_bounded(ctx):
+    """property-level bounded stand-in (and the fallback replay of this property's refuted obligations)"""
+    from pvc.harness import venv_run
+    inp = {"what": "supplied_part", "fixed_on": [] if ctx.tier == "thorough" else ["j6", "fci"]}
+    res = venv_run("bounded.py", inp, timeout=3000)
+    ctx.bounded("pressure-results-exactly-on-the-supplied-junctions", res["ok"],
+                "one water network (9 junctions with unsorted labels, 5 pipes, pipe-attached and junction valve, flow controller, heat "
+                "consumer as the only link to a junction, pressure controller with an unsupplied inlet, 3 ext grids incl. a temperature-only "
+                "one, sinks everywhere): %s in_service / opened / control_active patterns with consistent junction flags; NaN pattern against "
+                "an independent search over the element tables, every 4th pattern also against the network rebuilt without the "
+                "unsupplied part, no supplied junction => PipeflowNotConverged, every pattern with a supplied part must converge"
+                % ("all 256" if ctx.tier == "thorough" else "64 (junction 8 and the flow controller in service)"),
+                res["cases"], witness=res["witness"], replay={"handler": "bounded", "input": inp} if not res["ok"] else None)
